@@ -268,7 +268,12 @@ func monC11(c *drv.Ctx) {
 			}
 		}
 		got := base.NewBaseResp()
-		nr, err := got.FastRead(place(wire, 0))
+		rdIn := wire
+		if r.Intn(2) == 0 {
+			// the struct is a field of an enclosing struct: more fields follow it
+			rdIn = append(append([]byte(nil), wire...), gen.Bytes(r, 2+r.Intn(6))...)
+		}
+		nr, err := got.FastRead(place(rdIn, 0))
 		if err != nil || nr != bl || got.StatusMessage != orig.StatusMessage || got.StatusCode != orig.StatusCode || !strMapEq(got.Extra, orig.Extra) {
 			fail("fastread-of-own-encoding", "FastRead = (%d, %v), want (%d, nil); decoded %.200q", nr, err, bl, fmt.Sprint(got))
 			return
@@ -337,7 +342,11 @@ func monC11(c *drv.Ctx) {
 			return
 		}
 		got := thrift.NewApplicationException(0, "")
-		nr, err := got.FastRead(place(wire, 0))
+		rdIn := wire
+		if r.Intn(2) == 0 {
+			rdIn = append(append([]byte(nil), wire...), gen.Bytes(r, 2+r.Intn(6))...)
+		}
+		nr, err := got.FastRead(place(rdIn, 0))
 		if err != nil || nr != bl || got.Msg() != msg || got.TypeID() != tid {
 			fail("fastread-of-own-encoding", "FastRead = (%d, %v); decoded (%d, %.60q)", nr, err, got.TypeID(), got.Msg())
 			return
